@@ -349,87 +349,113 @@ def run_primitive(spec):
         return Out(ok=True, nontrivial=True, rejected=True, classes=["rejected_invalid:" + which])
     if len(prim) == 0 or len(sc) == 0:
         return Out(ok=True, nontrivial=False, rejected=True, classes=["empty_cell"])
-    errs = []
-    if len(sc) % len(prim):
-        errs.append("natom_s not a multiple of natom_p")
-    N = len(sc) // max(len(prim), 1)
-    Pinv = np.linalg.inv(prim.cell)
-    p2s, s2p, p2p = prim.p2s_map, prim.s2p_map, prim.p2p_map
-    # supercell lattice must be an integer combination of primitive vectors, index N
-    T = sc.cell @ Pinv
-    if np.abs(T - np.rint(T)).max() > 1e-6 or abs(abs(np.linalg.det(T)) - N) > 1e-6:
-        errs.append("supercell is not an index-N superlattice of the primitive lattice")
-    mags_s = sc.magnetic_moments
-    mags_p = prim.magnetic_moments
-    for i in range(len(sc)):
-        d = (sc.positions[i] - sc.positions[s2p[i]]) @ Pinv
-        if np.abs(d - np.rint(d)).max() > 1e-6:
-            errs.append("supercell atom %d is not primitive atom + primitive lattice vector" % i)
-            break
-        k = p2p[s2p[i]]
-        if sc.symbols[i] != prim.symbols[k] or abs(sc.masses[i] - prim.masses[k]) > 1e-12:
-            errs.append("species/mass of supercell atom %d differs from its primitive atom (%s vs %s)" % (i, sc.symbols[i], prim.symbols[k]))
-            break
-        if (mags_s is None) != (mags_p is None) or (mags_s is not None and not np.allclose(mags_s[i], mags_p[k], atol=1e-12)):
-            errs.append("moment of supercell atom %d differs from its primitive atom" % i)
-            break
-    if not errs:
-        if sorted(p2p.keys()) != sorted(np.array(p2s).tolist()) or any(p2p[k] != j for j, k in enumerate(p2s)) or \
-                any(s2p[k] != k for k in p2s) or not set(np.array(s2p).tolist()) <= set(np.array(p2s).tolist()):
-            errs.append("p2s/s2p/p2p maps inconsistent")
-        for j, k in enumerate(p2s):
-            d = (prim.positions[j] - sc.positions[k]) @ Pinv
+    def invariants(prim):
+        errs = []
+        if len(sc) % len(prim):
+            errs.append("natom_s not a multiple of natom_p")
+        N = len(sc) // max(len(prim), 1)
+        Pinv = np.linalg.inv(prim.cell)
+        p2s, s2p, p2p = prim.p2s_map, prim.s2p_map, prim.p2p_map
+        # supercell lattice must be an integer combination of primitive vectors, index N
+        T = sc.cell @ Pinv
+        if np.abs(T - np.rint(T)).max() > 1e-6 or abs(abs(np.linalg.det(T)) - N) > 1e-6:
+            errs.append("supercell is not an index-N superlattice of the primitive lattice")
+        mags_s = sc.magnetic_moments
+        mags_p = prim.magnetic_moments
+        for i in range(len(sc)):
+            d = (sc.positions[i] - sc.positions[s2p[i]]) @ Pinv
             if np.abs(d - np.rint(d)).max() > 1e-6:
-                errs.append("primitive atom %d is not at the position of supercell atom p2s_map[%d]" % (j, j))
+                errs.append("supercell atom %d is not primitive atom + primitive lattice vector" % i)
                 break
-    # unit-cell species must survive into the supercell (labels like Fe1/Fe2 included)
-    if not errs and sorted(sc.symbols) != sorted(list(cell.symbols) * det3(S)):
-        errs.append("symbols of the supercell are not |det S| copies of the unit cell's symbols")
-    # each primitive vector must be a translation of the crystal
-    if not errs:
-        for v in prim.cell:
-            if not is_crystal_translation(sc, v):
-                errs.append("a primitive lattice vector is not a translation symmetry of the crystal (species/mass/moment-wise)")
+            k = p2p[s2p[i]]
+            if sc.symbols[i] != prim.symbols[k] or abs(sc.masses[i] - prim.masses[k]) > 1e-12:
+                errs.append("species/mass of supercell atom %d differs from its primitive atom (%s vs %s)" % (i, sc.symbols[i], prim.symbols[k]))
                 break
-    # pure-translation permutations: group, N elements, simply transitive on each sublattice
-    if not errs:
-        perms = prim.atomic_permutations
-        ps = {tuple(int(y) for y in x) for x in perms}
-        n = len(sc)
-        if len(perms) != N or len(ps) != N:
-            errs.append("number of pure-translation permutations %d (distinct %d) != N=%d" % (len(perms), len(ps), N))
-        elif tuple(range(n)) not in ps:
-            errs.append("identity missing from atomic_permutations")
+            if (mags_s is None) != (mags_p is None) or (mags_s is not None and not np.allclose(mags_s[i], mags_p[k], atol=1e-12)):
+                errs.append("moment of supercell atom %d differs from its primitive atom" % i)
+                break
+        if not errs:
+            if sorted(p2p.keys()) != sorted(np.array(p2s).tolist()) or any(p2p[k] != j for j, k in enumerate(p2s)) or \
+                    any(s2p[k] != k for k in p2s) or not set(np.array(s2p).tolist()) <= set(np.array(p2s).tolist()):
+                errs.append("p2s/s2p/p2p maps inconsistent")
+            for j, k in enumerate(p2s):
+                d = (prim.positions[j] - sc.positions[k]) @ Pinv
+                if np.abs(d - np.rint(d)).max() > 1e-6:
+                    errs.append("primitive atom %d is not at the position of supercell atom p2s_map[%d]" % (j, j))
+                    break
+        # unit-cell species must survive into the supercell (labels like Fe1/Fe2 included)
+        if not errs and sorted(sc.symbols) != sorted(list(cell.symbols) * det3(S)):
+            errs.append("symbols of the supercell are not |det S| copies of the unit cell's symbols")
+        # each primitive vector must be a translation of the crystal
+        if not errs:
+            for v in prim.cell:
+                if not is_crystal_translation(sc, v):
+                    errs.append("a primitive lattice vector is not a translation symmetry of the crystal (species/mass/moment-wise)")
+                    break
+        # pure-translation permutations: group, N elements, simply transitive on each sublattice
+        if not errs:
+            perms = prim.atomic_permutations
+            ps = {tuple(int(y) for y in x) for x in perms}
+            n = len(sc)
+            if len(perms) != N or len(ps) != N:
+                errs.append("number of pure-translation permutations %d (distinct %d) != N=%d" % (len(perms), len(ps), N))
+            elif tuple(range(n)) not in ps:
+                errs.append("identity missing from atomic_permutations")
+            else:
+                arr = np.array(perms)
+                for a in arr:
+                    if sorted(a.tolist()) != list(range(n)):
+                        errs.append("atomic permutation is not a permutation")
+                        break
+                    inv = np.argsort(a)
+                    if tuple(int(y) for y in inv) not in ps:
+                        errs.append("atomic_permutations not closed under inverse")
+                        break
+                    for b in arr[: min(len(arr), 6)]:
+                        if tuple(int(y) for y in a[b]) not in ps:
+                            errs.append("atomic_permutations not closed under composition")
+                            break
+                    if errs:
+                        break
+                if not errs:
+                    for u in p2s:
+                        sub = np.where(np.array(s2p) == u)[0]
+                        imgs_a = sorted(int(x[u]) for x in arr)
+                        inv_imgs = sorted(int(np.argsort(x)[u]) for x in arr)
+                        if imgs_a != sorted(sub.tolist()) or inv_imgs != sorted(sub.tolist()):
+                            errs.append("translations do not act simply transitively on the sublattice of atom %d" % u)
+                            break
+        return errs, N
+
+    errs, N = invariants(prim)
+    reordered = False
+    if not errs and len(prim) >= 2:
+        # the documented way to fix the order of primitive atoms: the same invariants must hold for the re-ordered cell
+        from phonopy.structure.cells import Primitive
+
+        order = rng_from(spec["key"], 7).permutation(len(prim))
+        want = prim.scaled_positions[order]
+        try:
+            with contextlib.redirect_stdout(buf):
+                prim2 = Primitive(sc, prim.primitive_matrix, store_dense_svecs=spec["dense_svecs"], positions_to_reorder=want)
+        except Exception as e:
+            return Out(ok=False, msg="Primitive(..., positions_to_reorder=<permutation %s of its own positions>) raised %r" % (order.tolist(), e))
+        d = prim2.scaled_positions - want
+        if np.abs(d - np.rint(d)).max() > 1e-6:
+            errs.append("positions_to_reorder: atoms are not in the requested order")
         else:
-            arr = np.array(perms)
-            for a in arr:
-                if sorted(a.tolist()) != list(range(n)):
-                    errs.append("atomic permutation is not a permutation")
-                    break
-                inv = np.argsort(a)
-                if tuple(int(y) for y in inv) not in ps:
-                    errs.append("atomic_permutations not closed under inverse")
-                    break
-                for b in arr[: min(len(arr), 6)]:
-                    if tuple(int(y) for y in a[b]) not in ps:
-                        errs.append("atomic_permutations not closed under composition")
-                        break
-                if errs:
-                    break
-            if not errs:
-                for u in p2s:
-                    sub = np.where(np.array(s2p) == u)[0]
-                    imgs_a = sorted(int(x[u]) for x in arr)
-                    inv_imgs = sorted(int(np.argsort(x)[u]) for x in arr)
-                    if imgs_a != sorted(sub.tolist()) or inv_imgs != sorted(sub.tolist()):
-                        errs.append("translations do not act simply transitively on the sublattice of atom %d" % u)
-                        break
+            e2, _ = invariants(prim2)
+            errs += ["with positions_to_reorder=%s: %s" % (order.tolist(), x) for x in e2]
+            if not e2 and (list(prim2.symbols) != [prim.symbols[i] for i in order] or np.abs(prim2.masses - prim.masses[order]).max() > 1e-12 or
+                           (prim.magnetic_moments is not None and np.abs(prim2.magnetic_moments - prim.magnetic_moments[order]).max() > 1e-12)):
+                errs.append("with positions_to_reorder=%s: species/masses/moments do not follow the atoms" % order.tolist())
+        reordered = True
     if errs:
         return Out(ok=False, msg="primitive cell (centring %s, request %r, labels %s, S=%s, snf=%s): %s"
                    % (cen, pm if not isinstance(pm, np.ndarray) else "explicit", spec["labels"], S.tolist(), spec["snf"], "; ".join(errs)))
     nontriv = cen != "P" or bool(np.any(S - np.diag(np.diag(S))))
     return Out(ok=True, nontrivial=nontriv, classes=["cen:" + cen, "req:" + which, spec["labels"], "N:%d" % min(N, 12),
-                                                     "snf" if spec["snf"] else "classic"])
+                                                     "snf" if spec["snf"] else "classic"] + (["reordered"] if reordered else []))
 
 
 SUBCHECKS = [
